@@ -1,13 +1,20 @@
-"""Checks for the properties decided against the canonical machine BF.tla."""
+"""Checks for the properties decided against the canonical machine BF.tla
+(C01-C08, C10, and the executable half of C17)."""
+import json
+import os
 import random
 
-from . import bf
+from . import bf, pool
 from .common import Report, build_harness, log, seed, ToolError
 
 WIDTHS = [8, 16, 32, 64]
 SCREEN = {"maxSteps": 5000, "maxEv": 250}
+UNLIMITED = bf.UNLIMITED
+
+ALL_CONFIGS = [("inplace", 0)] + [(b, l) for b in ("irint", "bcint", "jit") for l in range(4)]
 
 
+# ------------------------------------------------------------------ populations
 def population(hv, tier, sd, pops, per_pop):
     """Seeded case population: list of {id,pop,prog,input,w}."""
     rng = random.Random(sd)
@@ -25,23 +32,48 @@ def population(hv, tier, sd, pops, per_pop):
             got = got[:n]
         elif pop == "M":
             got = bf.gen_cases(hv, "M", sd, n, "\n".join(seeds) + "\n")
+        elif pop == "E":
+            got = exhaustive_cases(n)
         else:
             got = bf.gen_cases(hv, pop, sd, n)
         cases += got
     out = []
     for i, c in enumerate(cases):
         c = dict(c)
-        c["w"] = rng.choice([64, 64, 64, 64, 64, 32]) if c["pop"] == "L" else rng.choice([8, 8, 16, 32, 64])
+        if "w" not in c:
+            c["w"] = rng.choice([64, 64, 64, 64, 64, 32]) if c["pop"] == "L" else rng.choice([8, 8, 16, 32, 64])
         c["id"] = "%s%d" % (c["pop"], i)
         out.append(c)
+    return out
+
+
+_E_CACHE = {}
+
+
+def exhaustive_cases(limit):
+    """Population E: every bracket-balanced program up to a length bound, generated
+    by TLC from BFGen.tla (the specification enumerates, not the driver)."""
+    from . import tlc
+    L = 4 if limit <= 6000 else (5 if limit <= 60000 else 6)
+    if L not in _E_CACHE:
+        res = tlc.run_tlc("BFGen", env={"MAXLEN": L}, workers=8, timeout=900)
+        progs = sorted({r["prog"] for r in res.records if "prog" in r})
+        _E_CACHE[L] = (progs, res)
+    progs, res = _E_CACHE[L]
+    out = []
+    for p in progs:
+        inputs = [[]] if "," not in p else [[], [0], [1], [255], [2, 1]]
+        for inp in inputs:
+            out.append({"pop": "E", "prog": p, "input": inp})
+    if len(out) > limit:
+        rng = random.Random(seed())
+        out = rng.sample(out, limit)
     return out
 
 
 def override_cases():
     """VERIF_CASES=<ndjson file of {prog,input,w}> (also set by --replay) replaces
     the generated population."""
-    import json
-    import os
     path = os.environ.get("VERIF_CASES")
     if not path:
         return None
@@ -55,74 +87,53 @@ def override_cases():
     return out
 
 
-def run_equivalence(prop, tier, backend_runs, pops, per_pop, profiles=("release",), adjudicate_max=3000):
-    """Common driver for C01-C04: run cases whose canonical run is short on the
-    given configurations, validate every distinct recording with TLC."""
-    rep = Report(prop, "model_checking", tier)
-    sd = seed()
-    import os
+def dev_pops(pops, per_pop):
     if os.environ.get("VERIF_POPS"):          # development aid: "N=30000,S=0"
         per_pop = {k: int(v) for k, v in (x.split("=") for x in os.environ["VERIF_POPS"].split(","))}
         pops = list(per_pop)
-    bins = build_harness(tuple(set(profiles) | {"release"}))
-    cases = override_cases() or population(bins["release"], tier, sd, pops, per_pop)
-    rep.count("cases_generated", len(cases))
-    traces, index = [], {}
-    prescreened = 0
-    for prof in profiles:
-        executed = bf.execute(bins[prof], cases, backend_runs, screen=SCREEN)
-        halting = [(c, runs, res, done) for (c, runs, res, done) in executed if done.get("refclass") == "halts"]
-        prescreened += sum(len(runs) for (c, runs, res, done) in halting)
-        # every disagreeing case goes to TLC; agreeing ones are sampled
-        dis = [e for e in halting if not e[3].get("agree")]
-        agr = [e for e in halting if e[3].get("agree")]
-        rng = random.Random(sd + 17)
-        rng.shuffle(agr)
-        room = max(0, adjudicate_max // len(profiles) - len(dis))
-        chosen = dis[: adjudicate_max] + agr[:room]
-        tr, owners = bf.group_traces(chosen, tag=prof[0] + ":")
-        for t in tr:
-            index[t["id"]] = (prof, owners[t["id"]])
-        traces += tr
-        bycase = {c["id"]: (c, runs) for (c, runs, res, done) in chosen}
-        for t in tr:
-            cid = t["id"].split(":", 1)[1].rsplit("#", 1)[0]
-            index[t["id"]] = (prof, owners[t["id"]], bycase[cid])
-        rep.count("cases_halting_within_caps", len(halting))
-        rep.count("cases_with_disagreeing_backends", len(dis))
-        nontrivial = sum(1 for e in chosen if e[3].get("iters", 0) >= 1 and e[3].get("refnev", 0) >= 1)
-        rep.count("distinct_nontrivial", nontrivial)
-    rep.count("prescreened", prescreened)
-    rep.coverage["rule"] = ("cases: seeded populations %s, random width; run on %s; a case is non-trivial when its "
-                            "canonical run has >= 1 loop iteration and >= 1 event; every distinct recording of a "
-                            "chosen case is validated by TLC against BF.tla (BFTrace)" % (
-                                ",".join(pops), "/".join(profiles)))
-    verdicts = bf.validate(traces, rep, prop)
-    tmap = {t["id"]: t for t in traces}
-    inconclusive = 0
+    return pops, per_pop
+
+
+# ------------------------------------------------------------------ adjudication
+def adjudicate(rep, prop, bins, prof, chosen, name=None, max_steps=6000, max_ev=300):
+    """chosen: list of (case, runs, results, done).  Validates every distinct
+    recording with TLC; returns list of (case, run, trace, verdict, prof) and
+    fills in samples."""
+    traces, owners = bf.group_traces(chosen, tag=prof[0] + ":")
+    bycase = {c["id"]: (c, runs) for (c, runs, res, done) in chosen}
+    verdicts = bf.validate(traces, rep, name or prop, max_steps=max_steps, max_ev=max_ev)
+    out = []
+    for t in traces:
+        cid = t["id"].split(":", 1)[1].rsplit("#", 1)[0]
+        case, runs = bycase[cid]
+        own = owners[t["id"]]
+        out.append((case, [runs[i] for i in own], t, verdicts[t["id"]], prof))
+    return out
+
+
+def settle(rep, prop, bins, judged, shrink=True):
+    """Turns TLC verdicts into violations / samples / counters."""
     rejected = []
-    for tid, v in verdicts.items():
-        prof, owners, (case, runs) = index[tid]
-        t = tmap[tid]
+    for case, runs, t, v, prof in judged:
         if v["verdict"] == "rejected":
-            rejected.append((case, runs[owners[0]], t, v, prof))
+            rejected.append((case, runs[0], t, v, prof))
         elif v["verdict"] == "inconclusive":
-            inconclusive += 1
-        elif len(rep.coverage["samples"]) < 5 and v["steps"] > 20:
-            rep.sample({"prog": case["prog"], "w": case["w"], "input": case["input"],
-                        "configs": [bf.cfg_name(runs[i]) for i in owners], "log": t["log"][:12],
-                        "tlc": v["why"], "canonical_steps": v["steps"]})
-    report_rejected(rep, bins, rejected, prop)
-    rep.count("inconclusive", inconclusive)
-    return rep.finish()
+            rep.count("inconclusive")
+        else:
+            rep.count("accepted")
+            if len(rep.coverage["samples"]) < 5 and (v["steps"] > 20 or t["claim"] != "complete"):
+                rep.sample({"prog": case["prog"], "w": case["w"], "input": case["input"],
+                            "configs": [bf.cfg_name(r) for r in runs][:6], "claim": t["claim"],
+                            "log": t["log"][:12], "tlc": v["why"], "canonical_steps": v["steps"]})
+    report_rejected(rep, bins, rejected, prop, max_shrink=12 if shrink else 0)
 
 
 def report_rejected(rep, bins, rejected, prop, max_shrink=12):
     """Rejected recordings become violations.  For readability the first few are
     delta-debugged natively; the shrunk case is reported only if TLC rejects its
     recording as well."""
-    from . import pool
-    todo = [r for r in rejected if r[2]["claim"] == "complete"][:max_shrink]
+    todo = [r for r in rejected if r[2]["claim"] == "complete" and r[1].get("mode", "exec") == "exec"
+            and r[1].get("alloc", "sys") == "sys"][:max_shrink]
     shrunk = {}
     if todo:
         reqs = [{"op": "shrink", "id": "s%d" % i, "prog": c["prog"], "w": c["w"], "input": c["input"], "run": run}
@@ -139,63 +150,255 @@ def report_rejected(rep, bins, rejected, prop, max_shrink=12):
                           "input": a["input"]}
                     cases2.append((prof, c2))
                     runs2[c2["id"]] = todo[i][1]
-        traces2, idx2 = [], {}
         for prof in byprof:
             cs = [c for (p, c) in cases2 if p == prof]
             if not cs:
                 continue
             ex = bf.execute(bins[prof], cs, lambda c: [runs2[c["id"]]])
-            tr, owners = bf.group_traces(ex, tag=prof[0] + ":")
-            for t in tr:
-                cid = t["id"].split(":", 1)[1].rsplit("#", 1)[0]
-                idx2[t["id"]] = (prof, [c for c in cs if c["id"] == cid][0])
-            traces2 += tr
-        if traces2:
-            v2 = bf.validate(traces2, rep, prop + "-shrunk")
-            for t in traces2:
-                if v2[t["id"]]["verdict"] == "rejected":
-                    prof, c2 = idx2[t["id"]]
-                    i = int(c2["id"][3:])
-                    shrunk[i] = (c2, runs2[c2["id"]], t, v2[t["id"]], prof)
-    for i, (case, run, t, v, prof) in enumerate(rejected):
-        if i < len(todo) and todo[i] is rejected[i] and i in shrunk:
+            for case, runs, t, v, pf in adjudicate(rep, prop, bins, prof, ex, name=prop + "-shrunk"):
+                if v["verdict"] == "rejected":
+                    shrunk[int(case["id"][3:])] = (case, runs[0], t, v, pf)
+    todo_ids = {id(r): i for i, r in enumerate(todo)}
+    for r in rejected:
+        case, run, t, v, prof = r
+        i = todo_ids.get(id(r))
+        if i is not None and i in shrunk:
             case, run, t, v, prof = shrunk[i]
         rep.violation(bf.witness(case, run, t, v, prof),
                       "%s w=%d %s: %s  prog=%s input=%s" % (
                           bf.cfg_name(run), case["w"], prof, v["why"], case["prog"], case["input"]))
 
 
+def nontrivial(done):
+    return done.get("iters", 0) >= 1 and done.get("refnev", 0) >= 1
+
+
+# ------------------------------------------------------------------ C01-C04
+def run_equivalence(prop, tier, backend_runs, pops, per_pop, profiles=("release",), adjudicate_max=3000):
+    """Run cases whose canonical run is short on the given configurations,
+    validate every distinct recording with TLC."""
+    rep = Report(prop, "model_checking", tier)
+    sd = seed()
+    pops, per_pop = dev_pops(pops, per_pop)
+    bins = build_harness(tuple(set(profiles) | {"release"}))
+    cases = override_cases() or population(bins["release"], tier, sd, pops, per_pop)
+    rep.count("cases_generated", len(cases))
+    judged = []
+    for prof in profiles:
+        executed = bf.execute(bins[prof], cases, backend_runs, screen=SCREEN)
+        halting = [e for e in executed if e[3].get("refclass") == "halts"]
+        skipped = len(executed) - len(halting)
+        if skipped and os.environ.get("VERIF_CASES"):
+            log("[%s] %d case(s) skipped: canonical run not halting within the caps" % (prop, skipped))
+        rep.count("prescreened", sum(len(e[1]) for e in halting))
+        # every case on which the recordings look different goes to TLC; the others are sampled
+        dis = [e for e in halting if not e[3].get("agree")]
+        agr = [e for e in halting if e[3].get("agree")]
+        rng = random.Random(sd + 17)
+        rng.shuffle(agr)
+        # exhaustively enumerated cases are never sampled away
+        keep = [e for e in agr if e[0]["pop"] == "E"]
+        rest = [e for e in agr if e[0]["pop"] != "E"]
+        room = max(0, adjudicate_max // len(profiles) - len(dis) - len(keep))
+        chosen = dis[:adjudicate_max] + keep + rest[:room]
+        rep.count("cases_halting_within_caps", len(halting))
+        rep.count("cases_with_disagreeing_backends", len(dis))
+        rep.count("distinct_nontrivial", sum(1 for e in chosen if nontrivial(e[3])))
+        rep.count("exhaustive_cases_validated", len(keep) + sum(1 for e in dis if e[0]["pop"] == "E"))
+        judged += adjudicate(rep, prop, bins, prof, chosen)
+    rep.coverage["rule"] = ("cases: populations %s (E = every balanced program up to a length bound, enumerated by "
+                            "TLC from BFGen.tla; the others seeded), run on %s; a case is non-trivial when its "
+                            "canonical run has >= 1 loop iteration and >= 1 event; every distinct recording of a "
+                            "chosen case is validated by TLC against BF.tla (BFTrace); all cases on which "
+                            "recordings differ are chosen, agreeing ones are sampled (prescreened counts all runs)"
+                            % (",".join(pops), "/".join(profiles)))
+    settle(rep, prop, bins, judged)
+    return rep.finish()
+
+
 def c04(tier):
-    per = {"rnd": 1500, "S": 1500, "T": 300, "R": 300, "M": 600} if tier == "quick" else \
-          {"rnd": 20000, "S": 20000, "T": 3000, "R": 400, "M": 8000, "N": 2000}
+    per = {"E": 6000, "rnd": 1200, "S": 1200, "T": 300, "R": 300, "M": 600} if tier == "quick" else \
+          {"E": 300000, "rnd": 20000, "S": 20000, "T": 3000, "R": 400, "M": 8000, "N": 2000}
     return run_equivalence("C04", tier, lambda c: [{"backend": "inplace", "level": 0}],
-                           ["rnd", "S", "T", "R", "M", "N"], per,
-                           adjudicate_max=3500 if tier == "quick" else 40000)
+                           ["E", "rnd", "S", "T", "R", "M", "N"], per,
+                           adjudicate_max=6000 if tier == "quick" else 400000)
 
 
 def c01(tier):
     levels = [0, 1, 2, 3, 4, 7]
-    per = {"rnd": 3000, "S": 6000, "R": 300, "M": 2000, "N": 500} if tier == "quick" else \
-          {"rnd": 60000, "S": 150000, "R": 400, "M": 40000, "N": 10000}
+    per = {"E": 6000, "rnd": 3000, "S": 6000, "R": 300, "M": 2000, "N": 500, "L": 1500} if tier == "quick" else \
+          {"E": 60000, "rnd": 60000, "S": 150000, "R": 400, "M": 40000, "N": 10000, "L": 40000}
     return run_equivalence("C01", tier, lambda c: [{"backend": "irint", "level": l} for l in levels],
-                           ["rnd", "S", "R", "M", "N"], per,
-                           adjudicate_max=3000 if tier == "quick" else 40000)
+                           ["E", "rnd", "S", "R", "M", "N", "L"], per,
+                           adjudicate_max=5000 if tier == "quick" else 80000)
 
 
 def c02(tier):
-    per = {"rnd": 2000, "S": 4000, "R": 300, "M": 1500, "N": 800, "T": 200} if tier == "quick" else \
-          {"rnd": 40000, "S": 100000, "R": 400, "M": 30000, "N": 20000, "T": 2000}
+    per = {"E": 6000, "rnd": 2000, "S": 4000, "R": 300, "M": 1500, "N": 800, "T": 200, "L": 1500} \
+        if tier == "quick" else \
+        {"E": 60000, "rnd": 40000, "S": 100000, "R": 400, "M": 30000, "N": 20000, "T": 2000, "L": 40000}
     return run_equivalence("C02", tier, lambda c: [{"backend": "bcint", "level": l} for l in range(4)],
-                           ["rnd", "S", "R", "M", "N", "T"], per, profiles=("release", "debug"),
-                           adjudicate_max=3000 if tier == "quick" else 40000)
+                           ["E", "rnd", "S", "R", "M", "N", "T", "L"], per, profiles=("release", "debug"),
+                           adjudicate_max=8000 if tier == "quick" else 120000)
 
 
 def c03(tier):
-    per = {"rnd": 2000, "S": 4000, "R": 300, "M": 1500, "N": 2500, "T": 200} if tier == "quick" else \
-          {"rnd": 40000, "S": 100000, "R": 400, "M": 30000, "N": 60000, "T": 2000}
+    per = {"E": 6000, "rnd": 2000, "S": 4000, "R": 300, "M": 1500, "N": 2500, "T": 200, "L": 8000} \
+        if tier == "quick" else \
+        {"E": 60000, "rnd": 40000, "S": 100000, "R": 400, "M": 30000, "N": 60000, "T": 2000, "L": 120000}
     return run_equivalence("C03", tier, lambda c: [{"backend": "jit", "level": l} for l in range(4)],
-                           ["rnd", "S", "R", "M", "N", "T"], per,
-                           adjudicate_max=3000 if tier == "quick" else 40000)
+                           ["E", "rnd", "S", "R", "M", "N", "T", "L"], per,
+                           adjudicate_max=5000 if tier == "quick" else 80000)
 
 
-CHECKS = {"C01": c01, "C02": c02, "C03": c03, "C04": c04}
+# ------------------------------------------------------------------ canonical facts
+def classify(rep, prop, cases, max_steps=6000, max_ev=300):
+    """Canonical facts of every case (class, steps, number of outputs and input
+    requests, pointer excursion) from the specification itself: TLC runs BF.tla
+    with claim "classify"."""
+    traces = []
+    for c in cases:
+        traces.append({"id": c["id"], "prog": list(c["prog"]), "w": c["w"], "input": c["input"], "outFail": -1,
+                       "inFail": -1, "inAbsent": 0, "outAbsent": 0, "log": [], "claim": "classify",
+                       "mustFinish": 0, "detail": "", "refused": 0})
+    verdicts = bf.validate(traces, rep, prop + "-classify", max_steps=max_steps, max_ev=max_ev)
+    rep.coverage["traces_validated_against_impl"] -= len(traces)      # these were not recordings
+    return verdicts
+
+
+def halting_cases(rep, prop, hv, tier, pops, per_pop, want=None):
+    """Population restricted to cases that TLC classifies as halting."""
+    sd = seed()
+    pops, per_pop = dev_pops(pops, per_pop)
+    cases = override_cases() or population(hv, tier, sd, pops, per_pop)
+    # cheap native pre-filter (scheduling only), then the specification's own classification
+    refs = pool.simple_requests(hv, [{"op": "ref", "id": c["id"], "prog": c["prog"], "w": c["w"],
+                                      "input": c["input"], "maxSteps": 5000, "maxEv": 250} for c in cases])
+    pre = [c for c, r in zip(cases, refs) if r and r.get("class") == "halts"]
+    if want and len(pre) > want:
+        rng = random.Random(sd + 3)
+        keepE = [c for c in pre if c["pop"] == "E"]
+        others = [c for c in pre if c["pop"] != "E"]
+        rng.shuffle(others)
+        pre = (keepE + others)[:max(want, 0)] if len(keepE) < want else rng.sample(keepE, want)
+    facts = classify(rep, prop, pre)
+    out = []
+    for c in pre:
+        f = facts[c["id"]]
+        if f["class"] == "halts":
+            c = dict(c)
+            c["facts"] = f
+            out.append(c)
+    rep.count("cases_generated", len(cases))
+    rep.count("cases_halting_by_spec", len(out))
+    return out
+
+
+def spread(n, cap):
+    """All of 0..n if that is at most cap positions, else cap positions spread evenly (ends included)."""
+    if n + 1 <= cap:
+        return list(range(n + 1))
+    return sorted({round(i * n / (cap - 1)) for i in range(cap)})
+
+
+def config_runs(extra, configs=ALL_CONFIGS):
+    return [dict({"backend": b, "level": l}, **extra) for (b, l) in configs]
+
+
+# ------------------------------------------------------------------ C08
+def c08(tier):
+    rep = Report("C08", "fault_enumeration", tier)
+    bins = build_harness(("release",))
+    hv = bins["release"]
+    per = {"E": 600, "S": 500, "R": 200, "rnd": 300, "M": 200} if tier == "quick" else \
+          {"E": 20000, "S": 6000, "R": 400, "rnd": 4000, "M": 3000, "N": 500}
+    cases = halting_cases(rep, "C08", hv, tier, ["E", "S", "R", "rnd", "M", "N"], per,
+                          want=350 if tier == "quick" else 6000)
+    cap = 12 if tier == "quick" else 64
+    nplans = 0
+
+    def runs_for(c):
+        nonlocal nplans
+        f = c["facts"]
+        plans = []
+        for k in spread(f["nout"], cap):                 # refuse output k (k = nout: never reached)
+            plans.append({"outFail": k, "outFailErr": k % 2})
+        for j in spread(f["nin"], cap):                  # fail input request j
+            plans.append({"inFail": j})
+        plans.append({"inAbsent": 1})
+        plans.append({"outAbsent": 1})
+        plans.append({"inAbsent": 1, "outAbsent": 1})
+        nplans += len(plans)
+        runs = []
+        for p in plans:
+            runs += config_runs(p)
+        return runs
+
+    executed = bf.execute(hv, cases, runs_for)
+    rep.coverage["evaluations"] = sum(len(e[1]) for e in executed)
+    rep.coverage["fault_plans"] = nplans
+    rep.coverage["distinct_nontrivial"] = sum(1 for c in cases if c["facts"]["nout"] + c["facts"]["nin"] >= 1
+                                              and c["facts"]["steps"] > 5)
+    rep.coverage["rule"] = ("for every case (halting by BF.tla) the fault plans are: refuse output k for k in "
+                            "0..n (n = number of canonical outputs, alternating Ok(0) and Err), fail input request j "
+                            "for j in 0..m, input absent, output absent, both absent - at most %d positions of each "
+                            "kind per case, spread evenly; each plan is run on inplace and on irint/bcint/jit at "
+                            "levels 0-3; every distinct recording (events, the failed attempt, how the call came "
+                            "back) is validated by TLC (BFTrace) against BF.tla with the same plan; non-trivial = "
+                            "the canonical run has at least one event and more than 5 steps" % cap)
+    judged = adjudicate(rep, "C08", bins, "release", executed)
+    settle(rep, "C08", bins, judged, shrink=False)
+    return rep.finish()
+
+
+# ------------------------------------------------------------------ C07
+BUDGETS = [0, 1, 2, 3, 5, 10, 100, 1000, 10 ** 4, 10 ** 6, UNLIMITED]
+
+
+def c07(tier):
+    rep = Report("C07", "model_checking", tier)
+    bins = build_harness(("release",))
+    hv = bins["release"]
+    sd = seed()
+    per = {"E": 800, "S": 500, "rnd": 300, "D": 120, "R": 250, "M": 200} if tier == "quick" else \
+          {"E": 20000, "S": 8000, "rnd": 4000, "D": 1500, "R": 400, "M": 4000, "N": 800}
+    pops, per = dev_pops(["E", "S", "rnd", "D", "R", "M", "N"], per)
+    cases = override_cases() or population(hv, tier, sd, pops, per)
+    refs = pool.simple_requests(hv, [{"op": "ref", "id": c["id"], "prog": c["prog"], "w": c["w"],
+                                      "input": c["input"], "maxSteps": 5000, "maxEv": 250} for c in cases])
+    want = 450 if tier == "quick" else 8000
+    rng = random.Random(sd + 5)
+    halts = [c for c, r in zip(cases, refs) if r and r.get("class") == "halts"]
+    divs = [c for c, r in zip(cases, refs) if r and r.get("class") == "diverges"]
+    rng.shuffle(halts)
+    rng.shuffle(divs)
+    halts, divs = halts[:want], divs[:want // 3]
+    hid = {c["id"] for c in halts}
+
+    def runs_for(c):
+        runs = []
+        for b in BUDGETS:
+            if b == UNLIMITED and c["id"] not in hid:
+                continue                      # an unlimited budget on a divergent program never returns (C05)
+            runs += config_runs({"mode": "limited", "budget": b})
+        return runs
+
+    executed = bf.execute(hv, halts + divs, runs_for)
+    rep.coverage["budgets"] = [str(b) for b in BUDGETS]
+    rep.count("cases_halting", len(halts))
+    rep.count("cases_divergent", len(divs))
+    rep.count("limited_runs", sum(len(e[1]) for e in executed))
+    rep.coverage["distinct_nontrivial"] = len(halts) + len(divs)
+    rep.coverage["rule"] = ("cases: natively pre-classified halting / divergent programs (TLC re-derives the class "
+                            "while validating); each is run with execute_limited at budgets %s on inplace and "
+                            "irint/bcint/jit at levels 0-3 (2^62 only where the program halts); the outcome "
+                            "(finished flag + event log) is validated by TLC (BFTrace): finished => complete "
+                            "canonical log, unfinished => prefix, unfinished at 2^62 => only if the canonical run "
+                            "diverges; the return time is bounded by a watchdog of 10 s + 2 us per budget unit"
+                            % ", ".join(str(b) for b in BUDGETS))
+    judged = adjudicate(rep, "C07", bins, "release", executed)
+    settle(rep, "C07", bins, judged, shrink=False)
+    return rep.finish()
+
+
+CHECKS = {"C01": c01, "C02": c02, "C03": c03, "C04": c04, "C07": c07, "C08": c08}
